@@ -82,7 +82,9 @@ func acceptElement(t *verifsim.Tape) string {
 		m := supportedMT[t.Draw("sup", len(supportedMT))]
 		mt = strings.ToUpper(m[:1]) + m[1:5] + strings.ToUpper(m[5:])
 	}
-	switch t.Draw("acc-par", 8) {
+	switch t.Draw("acc-par", 9) {
+	case 8:
+		mt += []string{";q=0", "; q=0.0", ";q=1", "; q=1.000", ";Q=0.5"}[t.Draw("qedge", 5)]
 	case 0:
 		mt += ";q=0." + string("123456789"[t.Draw("q", 9)])
 	case 1:
@@ -107,6 +109,9 @@ func genAccept(t *verifsim.Tape) (val string, present bool, class string) {
 	case 2:
 		return sup() + "; charset=utf-8", true, "param"
 	case 3:
+		if t.Draw("qedge-single", 3) == 0 {
+			return sup() + []string{";q=0", "; q=0.0", ";q=1"}[t.Draw("qedge", 3)], true, "qvalue"
+		}
 		return sup() + ";q=0." + string("123456789"[t.Draw("q", 9)]), true, "qvalue"
 	case 4:
 		return sup() + ", " + sup() + ";q=0.5", true, "list"
@@ -187,9 +192,32 @@ func genPreset(t *verifsim.Tape) string {
 		return "text/plain; charset=utf-8"
 	case 3:
 		return "application/json"
+	case 4:
+		return []string{"application/vnd.acme.v2+XML", "Application/Vnd.Thing+JSON", "application/vnd.acme+Gob"}[t.Draw("preset-case", 3)]
 	default:
 		return ""
 	}
+}
+
+// respellMediaType changes the case of the type/subtype of a Content-Type value the way an intermediary or
+// another implementation may (media types are case-insensitive, RFC 7231 3.1.1.1); parameters are left alone.
+func respellMediaType(t *verifsim.Tape, ct string) string {
+	mt, rest := ct, ""
+	if i := strings.Index(ct, ";"); i >= 0 {
+		mt, rest = ct[:i], ct[i:]
+	}
+	switch t.Draw("respell", 3) {
+	case 0:
+		return strings.ToUpper(mt) + rest
+	case 1:
+		if i := strings.Index(mt, "/"); i >= 0 && len(mt) > i+1 {
+			return strings.ToUpper(mt[:1]) + mt[1:i+1] + strings.ToUpper(mt[i+1:i+2]) + mt[i+2:] + rest
+		}
+	}
+	if i := strings.LastIndex(mt, "+"); i >= 0 {
+		return mt[:i+1] + strings.ToUpper(mt[i+1:]) + rest
+	}
+	return strings.ToUpper(mt[:1]) + mt[1:] + rest
 }
 
 func genValue(t *verifsim.Tape) (string, any) {
@@ -384,6 +412,10 @@ func runC15(t *verifsim.Tape, cfg engine.Config) *engine.Outcome {
 					o.Features["fault_cut_error"]++
 				}
 				continue
+			}
+			if ct := resp.Header.Get("Content-Type"); ct != "" && t.Draw("respell-ct", 5) == 0 {
+				resp.Header.Set("Content-Type", respellMediaType(t, ct))
+				o.Features["resp_media_type_respelled"]++
 			}
 			target, get := decodeTarget(kind)
 			derr := goahttp.ResponseDecoder(resp).Decode(target)
